@@ -1,8 +1,44 @@
 (* Property C03 — Interest and Data packets survive encode->decode unchanged for all field values.
    Only theorem statements closed by `exact`, each followed by Print Assumptions. *)
-From Packet Require Import Model Spec EncProofs.
+From Packet Require Import Model Spec ReadersProofs EncProofs DecGeneric DecProofs DecData EncData Roundtrip.
 From Names Require Import Order.
 Open Scope N_scope.
+Arguments ROk {A}.
+
+(* Data.  For every name, every subset of MetaInfo fields, content supplied as any list of buffers and every signer
+   (abstract: `sign` is an arbitrary function; data_siginfo is the SignatureInfo the API derives from the signer's
+   configuration, est its EstimateSize): if MakeData returns a wire, then through ANY reader that ranges over the joined
+   bytes — a BufferReader, or a WireReader over any segmentation — ReadData returns exactly the name, MetaInfo, content,
+   SignatureInfo and signature value that went in, and the covered bytes it reports are those handed to the signer.
+   Hypotheses: component/key-name sizes below 2^63 and types below 2^64 (name_ok, signer_ok), ContentType < 2^64 and
+   FreshnessPeriod a whole non-negative number of milliseconds (meta_wf), total size within a Go int (data_fits). *)
+Theorem data_roundtrip : forall sign nm cfg content sg si est e,
+  data_siginfo sg = Ok (si, est) -> name_ok nm -> meta_wf (meta_of cfg) -> signer_ok sg -> data_fits nm cfg content si est ->
+  make_data sign nm cfg content sg = Ok e ->
+  exists sv, (est = 0 -> sv = None) /\ (0 < est -> sign (e_cov e) = sv /\ exists s, sv = Some s /\ blen s <= est) /\
+    concat (e_wire e) = enc_elem (6, V_of nm (meta_of cfg) content si sv) /\
+    forall r, View r (concat (e_wire e)) 0 ->
+      exists d cov, read_data r = ROk d cov /\ obs_data d = expected_data nm cfg content sg sv /\ concat cov = concat (e_cov e).
+Proof. exact data_roundtrip_thm. Qed.
+Print Assumptions data_roundtrip.
+
+(* Decoding a WireReader over any split of the bytes = decoding a BufferReader over their concatenation (Data). *)
+Theorem segmentation_irrelevant_data : forall sign nm cfg content sg si est e,
+  data_siginfo sg = Ok (si, est) -> name_ok nm -> meta_wf (meta_of cfg) -> signer_ok sg -> data_fits nm cfg content si est ->
+  make_data sign nm cfg content sg = Ok e ->
+  exists sv, forall segs, concat segs = concat (e_wire e) ->
+    exists d1 c1 d2 c2,
+      read_data (BR (concat segs) 0) = ROk d1 c1 /\ read_data (new_wire_reader segs) = ROk d2 c2 /\
+      obs_data d1 = expected_data nm cfg content sg sv /\ obs_data d2 = expected_data nm cfg content sg sv /\
+      concat c1 = concat (e_cov e) /\ concat c2 = concat (e_cov e).
+Proof. exact data_any_reader. Qed.
+Print Assumptions segmentation_irrelevant_data.
+
+(* The reader refinement itself: every view of a reader kind is a view (used above for both). *)
+Theorem readers_view : forall (b : bytes) (segs : list bytes),
+  View (BR b 0) b 0 /\ View (new_wire_reader segs) (concat segs) 0.
+Proof. exact (fun b segs => conj (view_br b 0 (Nat.le_0_l _)) (view_wr_start segs)). Qed.
+Print Assumptions readers_view.
 
 (* The standalone name encoder (Name.Bytes) produces the bytes the packet encoder writes for the same name, and decoding
    them (NameFromBytes) returns the name it was given. *)
@@ -10,6 +46,15 @@ Theorem name_bytes_agree : forall n, name_tlv n = name_bytes n /\ (name_wf n -> 
 Proof. exact (fun n => conj (name_tlv_bytes n) (fun H => eq_ind_r (fun b => name_from_bytes b = Some n) (name_from_bytes_enc n H) (name_tlv_bytes n))). Qed.
 Print Assumptions name_bytes_agree.
 
+(* non-vacuity: a signed Data with a 253-byte component, content in two buffers (one empty), decoded from a 4-way split
+   whose first segment holds only the outer T and L *)
 Example c03_example :
-  name_wf [mkc 8 (repeat 65 253)] /\ length (name_tlv [mkc 8 (repeat 65 253)]) = 261%nat.
-Proof. split; [split; [repeat constructor; vm_compute; reflexivity|vm_compute; reflexivity]|vm_compute; reflexivity]. Qed.
+  let nm := [mkc 8 (repeat 65 253)] in
+  let sg := Some (mkSigner 0 None None None None None None 32) in
+  match make_data (fun _ => Some (repeat 7 32)) nm (mkDC (Some 0) (Some 4000000000%Z) None) (Some [[1;2]; []]) sg with
+  | Ok e => match read_data (new_wire_reader [firstn 4 (concat (e_wire e)); firstn 100 (skipn 4 (concat (e_wire e))); [];
+                                              skipn 104 (concat (e_wire e))]) with
+            | ROk d cov => (do_content (obs_data d) = Some [1;2]) /\ do_sv (obs_data d) = Some (repeat 7 32) /\ concat cov = concat (e_cov e)
+            | _ => False end
+  | _ => False end.
+Proof. vm_compute. repeat split; reflexivity. Qed.
